@@ -395,7 +395,7 @@ class Model:
         if k == "NthPower":
             return ipow(xs[0], S.int_n(s[2]))
         if k == "NthRoot":
-            return xs[0] + 1
+            return sym(xs[0])
         if k == "Exponential":
             b = S.base_value(s[2])
             return iv.exp(xs[0].b * abs(iv.log(ivnum(b)))) if b != 1 else _IV1
@@ -583,7 +583,7 @@ class Model:
             else:
                 why = "root of zero" if g == "fail" else "root argument may be zero"
             st = self._guard_fail(res, s, why, g == "fail")
-            return Val(st, sym(abs(a.iv) + 1), None, False, True, "NthRoot domain")
+            return Val(st, sym(abs(a.iv)) if not is_zero(a.iv) else _IV1, None, False, True, "NthRoot domain")
         neg = all_neg(a.iv)
         m = -a.iv if neg else a.iv
         if n == 2:
